@@ -1,7 +1,7 @@
 (** C07 — account check accepts exactly the prescribed trailing accounts.
     [check_accounts] is check_account_infos once the stored list has been read
     (MetaList.ml_reload: malformed stored data is an error there, after D6). *)
-From SplVerif Require Import Lib.Base Resolution.Seeds Resolution.Account Resolution.Proofs.
+From SplVerif Require Import Lib.Base Tlv.Model Resolution.Seeds Resolution.Account Resolution.Proofs MetaList.Model MetaList.Stored.
 Local Open Scope N_scope.
 
 Theorem C07_iff : forall find_pda cfgs ix pid accounts,
@@ -20,6 +20,27 @@ Proof. exact check_accounts_total. Qed.
 Theorem C07_short_list : forall find_pda cfgs ix pid accounts, (length accounts < length cfgs)%nat ->
   check_accounts find_pda cfgs ix pid accounts <> Ok tt.
 Proof. intros fp cfgs ix pid accounts H E. apply check_accounts_iff in E. lia. Qed.
+
+(** from the raw account bytes, as check_account_infos is called: for ANY stored bytes
+    (malformed TLV, truncated list, garbage) the result is Ok or an error, never a panic *)
+Theorem C07_total_any_bytes : forall find_pda data t ix pid accounts,
+  check_account_infos find_pda data t ix pid accounts <> Panic.
+Proof. exact check_account_infos_total. Qed.
+Theorem C07_iff_from_bytes : forall find_pda data t ix pid accounts,
+  check_account_infos find_pda data t ix pid accounts = Ok tt <->
+  exists cfgs, ml_reload data t = Ok cfgs /\ (length cfgs <= length accounts)%nat /\
+    forall i c, nth_error cfgs i = Some c -> position_ok find_pda c ix pid accounts (length accounts - length cfgs + i).
+Proof. exact check_account_infos_iff. Qed.
+
+(** single-field mutations: a trailing account whose key or flag differs from what its
+    config resolves to (against the mutated list) is rejected *)
+Theorem C07_changed_triple_rejected : forall find_pda cfgs ix pid accounts i c m a,
+  (length cfgs <= length accounts)%nat -> nth_error cfgs i = Some c ->
+  resolve find_pda c ix pid (info_getter accounts) = Ok m ->
+  nth_error accounts (length accounts - length cfgs + i) = Some a ->
+  (i_key a <> m_key m \/ i_signer a <> m_signer m \/ i_writable a <> m_writable m) ->
+  check_accounts find_pda cfgs ix pid accounts <> Ok tt.
+Proof. exact check_rejects_changed_triple. Qed.
 
 Example C07_nonvacuous :
   let fp := fun (_ : list (list byte)) (_ : key) => @None key in
